@@ -1133,6 +1133,11 @@ class Executor:
                 return [(st, tuple(v.shape))]
             if attr == 'ndim':
                 return [(st, v.ndim)]
+            if attr == 'dtype':
+                # float unless the array may arrive in another representation
+                mi = v.store is not None and getattr(v.store, 'maybe_int', False)
+                return [(st, ('dtype', 'unknown' if mi else
+                              {'real': 'float', 'int': 'int', 'bool': 'bool'}[v.kind]))]
             if attr == 'size':
                 n = 1
                 for d in v.shape:
